@@ -709,7 +709,7 @@ pub fn sets(ctx: &Ctx) -> Vec<CaseSet> {
     let max1 = ctx.size(200, 2000) as usize;
     out.push(CaseSet::new(
         "agreement",
-        ctx.size(100_000, 750_000),
+        ctx.size(100_000, 3_000_000),
         Box::new(move |rep, rng, _| {
             let (input, q, tag) = gen_input(rng, &tb1, &cfg1, max1);
             rep.count(&format!("inputs:{}", tag));
@@ -722,7 +722,7 @@ pub fn sets(ctx: &Ctx) -> Vec<CaseSet> {
     let max2 = ctx.size(64, 512) as usize;
     out.push(CaseSet::new(
         "fault-every-offset",
-        ctx.size(40_000, 300_000),
+        ctx.size(40_000, 1_200_000),
         Box::new(move |rep, rng, _| {
             let (input, q, tag) = gen_input(rng, &tb2, &cfg2, max2);
             rep.count(&format!("fault-inputs:{}", tag));
@@ -734,7 +734,7 @@ pub fn sets(ctx: &Ctx) -> Vec<CaseSet> {
     // long tokens (2^k-1, 2^k, 2^k+1 bytes) through all sources and chunkings
     out.push(CaseSet::new(
         "long-tokens-agreement",
-        ctx.size(360, 1_800),
+        ctx.size(360, 9_000),
         Box::new(move |rep, rng, case| {
             let ks = [127usize, 128, 129, 255, 256, 257, 1023, 1024, 1025, 4095, 4096, 4097, 8191, 8192, 8193];
             let k = ks[(case as usize) % ks.len()];
@@ -762,7 +762,7 @@ pub fn sets(ctx: &Ctx) -> Vec<CaseSet> {
     let (tb3, cfg3) = (tb.clone(), cfg.clone());
     out.push(CaseSet::new(
         "named-entry-points",
-        ctx.size(30_000, 250_000),
+        ctx.size(30_000, 1_000_000),
         Box::new(move |rep, rng, _| {
             let (input, _q, tag) = gen_input(rng, &tb3, &cfg3, 300);
             entry_points(rep, &input, rng, tag);
